@@ -42,6 +42,7 @@ from __future__ import annotations
 
 import ast
 import itertools
+from types import SimpleNamespace
 
 from ..core import AnalysisError
 from ..core import norm
@@ -50,10 +51,14 @@ from ..model import enclosing_func
 from ..model import eval_order
 from ..model import last_attr
 from ..model import walk_in_order
-from ..paths import C
 from ..paths import class_names
+from ..paths import Engine
+from ..paths import is_const
+from ..paths import Out
+from ..paths import pattern_to_cond
 from ..paths import R
 from ..paths import Spec
+from ..paths import State
 from ..paths import UNKNOWN
 from ..pyint import Interp
 from ..pyint import Raised
@@ -67,7 +72,6 @@ from ._helpers_A import loops_over
 from ._helpers_A import method_call_on
 from ._helpers_A import params_of
 from ._helpers_A import proj
-from ._helpers_A import run_block
 from ._helpers_A import show
 
 PROP = "C05"
@@ -105,6 +109,40 @@ def _isinst(expr):
 
 def _is_none(e) -> bool:
     return isinstance(e, ast.Constant) and e.value is None
+
+
+def _stores(node):
+    """[(target, value expression | None)] of an assignment statement; tuple targets are flattened (pairwise with a tuple value of the
+    same length, else with an unknown value); an augmented assignment has no plain value."""
+    out = []
+
+    def add(t, v):
+        if isinstance(t, (ast.Tuple, ast.List)):
+            if isinstance(v, (ast.Tuple, ast.List)) and len(v.elts) == len(t.elts) and not any(isinstance(e, ast.Starred) for e in list(t.elts) + list(v.elts)):
+                for a, b in zip(t.elts, v.elts):
+                    add(a, b)
+            else:
+                for a in t.elts:
+                    add(a, None)
+        elif isinstance(t, ast.Starred):
+            add(t.value, None)
+        else:
+            out.append((t, v))
+
+    if isinstance(node, ast.Assign):
+        for t in node.targets:
+            add(t, node.value)
+    elif isinstance(node, ast.AnnAssign) and node.value is not None:
+        add(node.target, node.value)
+    elif isinstance(node, ast.AugAssign):
+        out.append((node.target, None))
+    elif isinstance(node, (ast.For, ast.AsyncFor)):
+        add(node.target, None)
+    elif isinstance(node, (ast.With, ast.AsyncWith)):
+        for it in node.items:
+            if it.optional_vars is not None:
+                add(it.optional_vars, None)
+    return out
 
 
 def _bindings(fn):
@@ -171,7 +209,6 @@ class DSpec(ASpec):
         ASpec.__init__(self, **kw)
         self._fn_depth: dict = {}
         self.inlined_fns: dict = {}
-        self._encl: dict = {}
 
     # -- frames
     def inline(self, call, st, depth):
@@ -182,10 +219,7 @@ class DSpec(ASpec):
         return fn
 
     def depth_of(self, node) -> int:
-        k = id(node)
-        if k not in self._encl:
-            self._encl[k] = enclosing_func(node) if hasattr(node, "_parent") else None
-        f = self._encl[k]
+        f = enclosing_func(node) if hasattr(node, "_parent") else None  # (synthesised conditions belong to the outermost frame)
         return self._fn_depth.get(id(f), 0) if f is not None else 0
 
     def v(self, expr, st):
@@ -215,8 +249,12 @@ class DSpec(ASpec):
             v = self._val(expr, st, self)
             if v is not None:
                 return v
+        if isinstance(expr, ast.NamedExpr):
+            return self.value(expr.value, st, depth)
         if isinstance(expr, ast.Name):
-            return R("self") if expr.id == "self" else st.get(f"{depth}:{expr.id}")
+            if expr.id == "self":
+                return R("self")
+            return st.get(f"{depth}:{expr.id}")
         if isinstance(expr, ast.Attribute):
             c = self.canon(expr, st, depth)
             if c:
@@ -228,7 +266,8 @@ class DSpec(ASpec):
             root = self._root(target.id, depth)
             if value_expr is None and (value is None or value == UNKNOWN):
                 value = ("sym", root)  # loop variable / with variable / unpacked element: an opaque object with a name
-            stale = [k for k, v in st.env if isinstance(v, tuple) and len(v) == 2 and v[0] == "r" and isinstance(v[1], str) and (v[1] == root or v[1].startswith(root + "."))]
+            roots = {root} | ({value[1]} if isinstance(value, tuple) and len(value) == 2 and value[0] == "sym" else set())
+            stale = [k for k, v in st.env if isinstance(v, tuple) and len(v) == 2 and v[0] == "r" and isinstance(v[1], str) and any(v[1] == r or v[1].startswith(r + ".") for r in roots)]
             if stale:
                 st = st.drop(lambda k: k in stale)
             st = self.rebound(target.id, depth, st)
@@ -237,11 +276,120 @@ class DSpec(ASpec):
     def rebound(self, name, depth, st):
         return st
 
+    sticky: tuple = ()  # atoms that are facts about the whole path: once decided (forked), the same answer is given again
+
+    def decide_leaf(self, cond, st, depth):
+        a = self._atom(cond, st, self) if self._atom and self.sticky else None
+        if a is not None and a[0] in self.sticky and a[0] not in self.scenario:
+            for t in reversed(st.trace):
+                if t[0] == "cond" and t[1] == a[0]:
+                    return t[2] if a[1] else (not t[2])
+        return ASpec.decide_leaf(self, cond, st, depth)
+
     def recv(self, call, st):
         """(canonical receiver chain, method name) of ``<recv>.<method>(...)``, else ('', '')."""
         if isinstance(call, ast.Call) and isinstance(call.func, ast.Attribute):
             return self.canon(call.func.value, st), call.func.attr
         return "", ""
+
+
+class DEngine(Engine):
+    """Path engine that also executes the bindings hidden inside a leaf condition: `if (x := f()) is None:`."""
+
+    def _plain_cond(self, expr, s, depth, T, F):
+        s = s.emit(*self.spec.events(expr, s))
+        for n in eval_order(expr):
+            if isinstance(n, ast.NamedExpr):
+                s = self.spec.bind(n.target, n.value, s, depth)
+        self._decide_into(expr, expr, s, depth, T, F)
+
+
+    def _captured(self, subject, pattern, s, depth, at):
+        """State with the names captured by ``pattern`` bound: `Cls(attr=name)` -> value of subject.attr at match time, `... as name` -> subject."""
+        sp = self.spec
+
+        def walk(pat, subj, st):
+            if isinstance(pat, ast.MatchAs):
+                if pat.pattern is not None:
+                    st = walk(pat.pattern, subj, st)
+                if pat.name:
+                    tgt = ast.Name(id=pat.name, ctx=ast.Store())
+                    tgt._parent = at
+                    st = sp.bind(tgt, subj, st, depth) if subj is not None else sp.bind(tgt, None, st, depth, value=UNKNOWN)
+            elif isinstance(pat, ast.MatchClass):
+                for p2 in pat.patterns:
+                    st = walk(p2, None, st)  # positional sub-patterns need __match_args__: the value is not resolved
+                for a, p2 in zip(pat.kwd_attrs, pat.kwd_patterns):
+                    sub = None
+                    if subj is not None:
+                        sub = ast.Attribute(value=subj, attr=a, ctx=ast.Load())
+                        ast.copy_location(sub, pat)
+                        sub._parent = at
+                    st = walk(p2, sub, st)
+            elif isinstance(pat, (ast.MatchSequence, ast.MatchOr)):
+                for p2 in pat.patterns:
+                    st = walk(p2, None, st)
+            elif isinstance(pat, ast.MatchMapping):
+                for p2 in pat.patterns:
+                    st = walk(p2, None, st)
+                if pat.rest:
+                    st = walk(ast.MatchAs(pattern=None, name=pat.rest), None, st)
+            elif isinstance(pat, ast.MatchStar) and pat.name:
+                st = walk(ast.MatchAs(pattern=None, name=pat.name), None, st)
+            return st
+
+        return walk(pattern, subject, s)
+
+    def _match(self, node, states, depth):
+        # Engine._match, plus: the case that is taken runs (guard and body) with its captures bound
+        sp = self.spec
+        out = Out.empty()
+        cur = {s.emit(*sp.events(node.subject, s)) for s in states}
+        for case in node.cases:
+            if not cur:
+                break
+            take, rest = set(), set()
+            for s in cur:
+                d = sp.match_case(node.subject, case.pattern, s, depth)
+                sb = self._captured(node.subject, case.pattern, s, depth, node) if d is not False else s
+                if d is True and case.guard is None:
+                    take.add(sb)
+                elif d is False:
+                    rest.add(s)
+                elif case.guard is not None and d is True:
+                    t, f, ab = self.cond(case.guard, {sb}, depth)
+                    out.merge_abrupt(ab)
+                    take |= t
+                    rest |= f
+                else:
+                    self.forks += 1
+                    take.add(sb)
+                    rest.add(s)
+            if sp.record_conds:
+                cexpr = pattern_to_cond(node.subject, case.pattern)
+                if cexpr is not None and not isinstance(cexpr, ast.Constant):
+                    take = {self._cev(cexpr, True, s) for s in take}
+                    rest = {self._cev(cexpr, False, s) for s in rest}
+            mev = getattr(sp, "case_event", None)
+            if mev:
+                take = {s.emit(mev(node, case, s)) if mev(node, case, s) is not None else s for s in take}
+            o = self.block(case.body, take, depth)
+            out.merge_abrupt(o)
+            out.normal |= o.normal
+            cur = rest
+        out.normal |= cur
+        return out
+
+
+def run_block(stmts, spec, bindings=None):
+    """Terminal (trace, how, state) triples of a statement list (treated as a function body)."""
+    eng = DEngine(spec)
+    o = eng.run(SimpleNamespace(body=list(stmts)), State((), {}), bindings)
+    out = [(s.trace, "return", s) for s in o.ret | o.cont | o.brk]  # (a loop body analysed on its own may end with continue / break)
+    for s in o.exc:
+        e = s.get("$exc")
+        out.append((s.trace, "raise:" + (e[1] if is_const(e) else "?"), s))
+    return out, eng
 
 
 def _module_of(ctx, node, candidates=(H2, H3, I, BASE)):
@@ -368,31 +516,46 @@ FRESH, LOOK, THEIRS = ("ours", "fresh"), ("ours", "lookup"), ("theirs", "lookup"
 TRANSLATED = "their[cmd.event.stream_id]"
 
 
+CMD = "$cmd"  # canonical name of the command currently coming back from the protocol handler, whatever the loop variable is called
+
+
 def _anchors(ctx, rel, cls):
-    """(_handle_event, name of its event parameter, name of the command variable, the call of the protocol handler the commands come from)."""
+    """(_handle_event, name of its event parameter, the call of the protocol handler whose commands are passed on).
+
+    The protocol handler call is `<handler>(event)` whose result is ITERATED: by a for loop directly, through a single-assignment local, or
+    inside a helper of the class it is handed to (`yield from self._pass_on(self._handle_event2(event))`)."""
     fn = ctx.func(rel, f"{cls}._handle_event")
     ev = params_of(fn)[0]
     single = _single(fn)
+    found = []
+    for n in walk_in_order(fn):
+        if not (isinstance(n, ast.Call) and len(n.args) == 1 and not n.keywords and isinstance(n.args[0], ast.Name) and n.args[0].id == ev and not is_self_call(n, fn.name)):
+            continue
+        p = getattr(n, "_parent", None)
+        if isinstance(p, (ast.For, ast.AsyncFor)) and p.iter is n:
+            found.append(n)
+        elif isinstance(p, ast.Assign) and len(p.targets) == 1 and isinstance(p.targets[0], ast.Name) and single.get(p.targets[0].id) is n:
+            if any(isinstance(l, ast.For) and isinstance(l.iter, ast.Name) and l.iter.id == p.targets[0].id for l in ast.walk(fn)):
+                found.append(n)
+        elif isinstance(p, ast.Call) and n in p.args and isinstance(p.func, ast.Attribute) and isinstance(p.func.value, ast.Name) and p.func.value.id == "self":
+            r = ctx.model.method(rel, cls, p.func.attr)
+            ps = params_of(r[1]) if r is not None else []
+            i = p.args.index(n)
+            if i < len(ps) and len(_bindings(r[1]).get(ps[i], ())) == 1 and any(isinstance(l, ast.For) and isinstance(l.iter, ast.Name) and l.iter.id == ps[i] for l in ast.walk(r[1])):
+                found.append(n)
+    ctx.require(len(found) == 1, f"{cls}._handle_event: expected one `for cmd in <inner handler>(event)` loop")
+    return fn, ev, found[0]
 
-    def inner_call(e):
-        e = _through(single, e)
-        if isinstance(e, ast.Call) and len(e.args) == 1 and not e.keywords and isinstance(e.args[0], ast.Name) and e.args[0].id == ev and not is_self_call(e, fn.name):
-            return e
-        return None
 
-    loops = [l for l in walk_in_order(fn) if isinstance(l, ast.For) and inner_call(l.iter) is not None]
-    ctx.require(len(loops) == 1 and isinstance(loops[0].target, ast.Name), f"{cls}._handle_event: expected one `for cmd in <inner handler>(event)` loop")
-    return fn, ev, loops[0].target.id, inner_call(loops[0].iter)
-
-
-def _client_spec(ctx, rel, cls, fn, ev, cmdvar, inner, scenario, leaves=None):
+def _client_spec(ctx, rel, cls, fn, ev, inner, scenario, leaves=None):
+    cmdvar = CMD
     def val(expr, st, sp):
         if isinstance(expr, ast.Call):
             if expr is inner:
                 return ("innercall",)
             ch, m = sp.recv(expr, st)
             if ch == MAPS[0] and m == "get" and not expr.keywords and expr.args and (len(expr.args) == 1 or (len(expr.args) == 2 and _is_none(expr.args[1]))) and sp.v(expr.args[0], st) == EVSID:
-                return LOOK
+                return st.get("our@evsid") if st.has("our@evsid") else LOOK
             if m == "get_next_available_stream_id" and ch in ("self.h2_conn", "self.h3_conn"):
                 return FRESH
             if ch == QUEUE and m == "pop":
@@ -405,7 +568,7 @@ def _client_spec(ctx, rel, cls, fn, ev, cmdvar, inner, scenario, leaves=None):
         if isinstance(expr, ast.Subscript) and isinstance(expr.ctx, ast.Load):
             ch = sp.canon(expr.value, st)
             if ch == MAPS[0] and sp.v(expr.slice, st) == EVSID:
-                return LOOK
+                return st.get("our@evsid") if st.has("our@evsid") else LOOK
             if ch == MAPS[1] and sp.v(expr.slice, st) == CMDSID:
                 return THEIRS
         if isinstance(expr, ast.Attribute) and isinstance(expr.ctx, ast.Load):
@@ -421,6 +584,8 @@ def _client_spec(ctx, rel, cls, fn, ev, cmdvar, inner, scenario, leaves=None):
 
     def label(node, st, sp):
         out = []
+        if try_lookup(node, st, sp):
+            out.append(("cond", "NEW", False))  # the lookup did not raise (labels are only produced on the normal path)
         for n in eval_order(node):
             if isinstance(n, ast.Call):
                 ch, m = sp.recv(n, st)
@@ -446,13 +611,12 @@ def _client_spec(ctx, rel, cls, fn, ev, cmdvar, inner, scenario, leaves=None):
                     out.append(("yield", "cmd"))
                 elif not _is_log(ctx, n.value):
                     out.append(("yield", norm(n.value) if n.value is not None else ""))
-        targets = node.targets if isinstance(node, ast.Assign) else [node.target] if isinstance(node, (ast.AugAssign, ast.AnnAssign)) and getattr(node, "value", None) is not None else []
-        plain = isinstance(node, (ast.Assign, ast.AnnAssign))
-        for t in targets:
+        for t, v in _stores(node) if isinstance(node, (ast.Assign, ast.AnnAssign, ast.AugAssign)) else []:
+            plain = v is not None  # the value of a tuple assignment is evaluated before any of its stores, like here (labels see the state before)
             if isinstance(t, ast.Subscript):
                 ch = sp.canon(t.value, st)
                 if ch in MAPS and plain:
-                    out.append(("map_our" if ch == MAPS[0] else "map_their", shown(sp.v(t.slice, st)), shown(sp.v(node.value, st))))
+                    out.append(("map_our" if ch == MAPS[0] else "map_their", shown(sp.v(t.slice, st)), shown(sp.v(v, st))))
                 elif ch in MAPS:
                     out.append(("map_other", norm(node)))
                 elif ch == QUEUE:
@@ -460,9 +624,9 @@ def _client_spec(ctx, rel, cls, fn, ev, cmdvar, inner, scenario, leaves=None):
             elif isinstance(t, ast.Attribute):
                 c = sp.canon(t, st)
                 if c == f"{ev}.stream_id":
-                    out.append(("rewrite_in", shown(sp.v(node.value, st)) if plain else ("?",)))
+                    out.append(("rewrite_in", shown(sp.v(v, st)) if plain else ("?",)))
                 elif c == f"{cmdvar}.event.stream_id":
-                    out.append(("rewrite_out", TRANSLATED if plain and sp.v(node.value, st) == THEIRS else norm(node.value)))
+                    out.append(("rewrite_out", TRANSLATED if plain and sp.v(v, st) == THEIRS else norm(v if plain else node)))
                 elif c in MAPS or c == QUEUE:
                     out.append(("map_other", norm(node)))
         if isinstance(node, ast.Delete):
@@ -473,6 +637,14 @@ def _client_spec(ctx, rel, cls, fn, ev, cmdvar, inner, scenario, leaves=None):
                 elif ch == QUEUE:
                     out.append(("q_pop", norm(node)))
         return out
+
+    def try_lookup(stmt, st, sp):
+        # `try: ours = self.our_stream_id[event.stream_id]` / `except KeyError:` is the same test as `.get()` + `is None`
+        p = getattr(stmt, "_parent", None)
+        if isinstance(stmt, (ast.Assign, ast.AnnAssign, ast.Expr)) and isinstance(p, ast.Try) and stmt in p.body and not st.has("our@evsid"):
+            if any(h.type is None or set(class_names(h.type)) & {"KeyError", "LookupError", "Exception", "BaseException"} for h in p.handlers):
+                return any(isinstance(n, ast.Subscript) and isinstance(n.ctx, ast.Load) and sp.canon(n.value, st) == MAPS[0] and sp.v(n.slice, st) == EVSID for n in ast.walk(stmt))
+        return False
 
     def atom(expr, st, sp):
         io = _isinst(expr)
@@ -487,43 +659,51 @@ def _client_spec(ctx, rel, cls, fn, ev, cmdvar, inner, scenario, leaves=None):
             return ("NEW", isinstance(cp[2], (ast.Is, ast.Eq)))
         cp = compare_pair(expr, (ast.In, ast.NotIn))
         if cp and sp.canon(cp[1], st) == MAPS[0] and sp.v(cp[0], st) == EVSID:
+            if st.has("our@evsid"):
+                return ("MAPPED_NOW", isinstance(cp[2], ast.In))  # asked again after the entry was written on this path
             return ("NEW", isinstance(cp[2], ast.NotIn))
         return None
 
     def raises(stmt, st, sp):
-        # `try: ours = self.our_stream_id[event.stream_id]` / `except KeyError:` is the same test as `.get()` + `is None`
-        if isinstance(stmt, (ast.Assign, ast.AnnAssign, ast.Expr)):
-            for n in ast.walk(stmt):
-                if isinstance(n, ast.Subscript) and isinstance(n.ctx, ast.Load) and sp.canon(n.value, st) == MAPS[0] and sp.v(n.slice, st) == EVSID:
-                    return ["KeyError"]
-        return []
+        return ["KeyError"] if try_lookup(stmt, st, sp) else []
 
     class CS(DSpec):
+        sticky = ("NEW",)  # "the stream of this event is not mapped yet" does not change while the event is handled (the map entry written for it is tracked as a value)
+
         def effect(self, stmt, st, depth):
             hit = {}
-            if isinstance(stmt, (ast.Assign, ast.AnnAssign)) and getattr(stmt, "value", None) is not None:
-                for t in stmt.targets if isinstance(stmt, ast.Assign) else [stmt.target]:
+            if isinstance(stmt, (ast.Assign, ast.AnnAssign, ast.AugAssign)):
+                for t, v in _stores(stmt):
                     if isinstance(t, ast.Attribute):
                         c = self.canon(t, st, depth)
                         if c == f"{ev}.stream_id":
-                            hit["evsid"] = self.value(stmt.value, st, depth)
+                            hit["evsid"] = self.value(v, st, depth) if v is not None else UNKNOWN
                         elif c == f"{cmdvar}.event.stream_id":
-                            hit["cmdsid"] = self.value(stmt.value, st, depth)
+                            hit["cmdsid"] = self.value(v, st, depth) if v is not None else UNKNOWN
+                    elif isinstance(t, ast.Subscript) and self.canon(t.value, st, depth) == MAPS[0] and self.value(t.slice, st, depth) == EVSID:
+                        hit["our@evsid"] = self.value(v, st, depth) if v is not None else UNKNOWN  # what a later our_stream_id[event's original id] yields
             st = DSpec.effect(self, stmt, st, depth)
             for k, v in hit.items():
                 st = st.set(k, v)
             return st
 
+        def bind(self, target, value_expr, st, depth, value=None):
+            p = getattr(target, "_parent", None)
+            if isinstance(target, ast.Name) and value_expr is None and isinstance(p, (ast.For, ast.AsyncFor)) and p.target is target and self.value(p.iter, st, depth) == ("innercall",):
+                # the next command of the protocol handler: what was known about the previous one's id no longer applies
+                if st.has("cmdsid"):
+                    st = st.drop(lambda k: k == "cmdsid")
+                value = ("sym", CMD)
+            return DSpec.bind(self, target, value_expr, st, depth, value=value)
+
         def rebound(self, name, depth, st):
-            # another event / another command: what was known about the previous one's id no longer applies
-            if depth == 0 and name == ev and st.has("evsid"):
-                st = st.drop(lambda k: k == "evsid")
-            if depth == 0 and name == cmdvar and st.has("cmdsid"):
-                st = st.drop(lambda k: k == "cmdsid")
+            # another event: what was known about the previous one's id no longer applies
+            if depth == 0 and name == ev and (st.has("evsid") or st.has("our@evsid")):
+                st = st.drop(lambda k: k in ("evsid", "our@evsid"))
             return st
 
         def loop_event(self, node, entered, st):
-            if isinstance(node.target, ast.Name) and node.target.id == cmdvar and self.depth_of(node) == 0 and self.v(node.iter, st) == ("innercall",):
+            if isinstance(node.target, ast.Name) and self.v(node.iter, st) == ("innercall",):
                 return ("inner", norm(inner.func), entered)
             if self.v(node.iter, st) == ("popped",):
                 return ("qloop", entered)
@@ -543,17 +723,17 @@ def _client_spec(ctx, rel, cls, fn, ev, cmdvar, inner, scenario, leaves=None):
             return None
 
     resolver = _self_helper_resolver(ctx, rel, cls, skip_names=(fn.name,), skip_nodes=(inner,))
-    return CS(label=label, atom=atom, scenario=scenario, val=val, raises=raises, resolver=resolver, unroll=2, max_depth=3)
+    return CS(label=label, atom=atom, scenario={**scenario, "MAPPED_NOW": True}, val=val, raises=raises, resolver=resolver, unroll=2, max_depth=3)
 
 
 def _client(ctx, rel, cls, gated):
-    fn, ev, cmdvar, inner = _anchors(ctx, rel, cls)
+    fn, ev, inner = _anchors(ctx, rel, cls)
     w = (rel, f"{cls}._handle_event", fn)
 
     results = []
     inlined = {}
     for H in (True, False):
-        sp = _client_spec(ctx, rel, cls, fn, ev, cmdvar, inner, {"H": H})
+        sp = _client_spec(ctx, rel, cls, fn, ev, inner, {"H": H})
         traces, _ = run_block(fn.body, sp, {ev: ("param", ev)})
         inlined.update(sp.inlined_fns)
         results.append((H, traces))
@@ -565,9 +745,9 @@ def _client(ctx, rel, cls, gated):
             if isinstance(d, ast.FunctionDef):
                 for n in ast.walk(d):
                     hit = False
-                    if isinstance(n, (ast.Assign, ast.AugAssign, ast.AnnAssign, ast.Delete)):
-                        tg = n.targets if isinstance(n, (ast.Assign, ast.Delete)) else [n.target]
-                        hit = any((isinstance(t, ast.Subscript) and attr_chain(t.value) in MAPS) for t in tg)
+                    if isinstance(n, (ast.Assign, ast.AugAssign, ast.AnnAssign, ast.Delete, ast.For, ast.With)):
+                        tg = n.targets if isinstance(n, ast.Delete) else [t for t, _ in _stores(n)]
+                        hit = any((isinstance(t, ast.Subscript) and attr_chain(t.value) in MAPS) or (attr_chain(t) in MAPS and d.name != "__init__") for t in tg)
                     elif isinstance(n, ast.Call) and isinstance(n.func, ast.Attribute):
                         hit = attr_chain(n.func.value) in MAPS and n.func.attr in ("pop", "clear", "update", "setdefault", "popitem", "__setitem__", "__delitem__")
                     if hit:
@@ -809,23 +989,27 @@ def _eval_leaf(ctx, expr, row, singles):
 
 
 def _gate_tables(ctx):
-    fn, ev, cmdvar, inner = _anchors(ctx, H2, "Http2Client")
+    fn, ev, inner = _anchors(ctx, H2, "Http2Client")
     w = (H2, "Http2Client._handle_event", fn)
 
     # the paths of _handle_event with every branch condition they took: (is a new stream, conditions, queued, resumed)
     leaves: dict = {}
     paths = set()
     for H in (True, False):
-        sp = _client_spec(ctx, H2, "Http2Client", fn, ev, cmdvar, inner, {"H": H}, leaves=leaves)
+        sp = _client_spec(ctx, H2, "Http2Client", fn, ev, inner, {"H": H}, leaves=leaves)
         traces, _ = run_block(fn.body, sp, {ev: ("param", ev)})
         ctx.paths += len(traces)
         for tr, how, _ in traces:
             if how != "return":
                 continue
             conds = tuple(dict.fromkeys((t[1], t[2]) for t in tr if t[0] == "cond?"))
-            paths.add((H and ("cond", "NEW", True) in tr, conds, any(t[0] == "q_append" for t in tr), any(t[0] == "q_pop" for t in tr)))
-    ctx.require(any(p[2] for p in paths), "Http2Client._handle_event: no path appends to stream_queue (anchor changed)")
-    ctx.require(any(p[3] for p in paths), "Http2Client._handle_event: no path takes a stream out of stream_queue (anchor changed)")
+            new = None if H else False  # is the event's stream still unmapped?  None: the path never asks
+            for t in tr:
+                if t[0] == "cond" and t[1] == "NEW" and new is None:
+                    new = t[2]
+            paths.add((H, new, conds, any(t[0] == "q_append" for t in tr), any(t[0] == "q_pop" for t in tr)))
+    ctx.require(any(p[3] for p in paths), "Http2Client._handle_event: no path appends to stream_queue (anchor changed)")
+    ctx.require(any(p[4] for p in paths), "Http2Client._handle_event: no path takes a stream out of stream_queue (anchor changed)")
 
     singles: dict = {}
     extras: dict = {}
@@ -842,8 +1026,9 @@ def _gate_tables(ctx):
             limit = p if p else r
             n_rows += 1
             ctx.cells += 2
-            seen = {False: 0, True: 0}
-            for new, conds, queued, resumed in paths:
+            GROUPS = ((True, True), (True, False), (False, False))  # (HttpEvent?, stream not mapped yet?)
+            cons = {g: [] for g in GROUPS}
+            for H, new, conds, queued, resumed in paths:
                 free = []
                 ok = True
                 for key, val in conds:
@@ -851,31 +1036,42 @@ def _gate_tables(ctx):
                         memo[(key, rk)] = _eval_leaf(ctx, leaves[key], row, singles)
                     got = memo[(key, rk)]
                     if isinstance(got, tuple):
-                        free.append((key, got))
+                        free.append((key, val, got))
                     elif got != val:
                         ok = False
                         break
-                if not ok:
-                    continue  # this path is not taken with these values
-                seen[new] += 1
-                want_q = new and o >= limit
-                want_r = (not queued) and bool(q) and o < limit
-                wrong = ("gate", queued) if queued != want_q else ("resume", resumed) if (not queued and resumed != want_r) else None
-                if wrong is None:
-                    continue
-                if free:
-                    attrs = [g[1] for _, g in free if g[1] is not None and "self." + g[1] not in extras]
-                    if attrs:
-                        for a in attrs:
-                            need.setdefault(a, wrong[0])
-                    elif stuck is None:
-                        stuck = (wrong[0], free[0][0].split(":", 2)[2], free[0][1][2])
-                    continue
-                if wrong[0] == "gate" and bad_g is None:
-                    bad_g = (row, queued)
-                if wrong[0] == "resume" and bad_r is None:
-                    bad_r = (row, resumed)
-            ctx.require(seen[True] and seen[False], f"Http2Client._handle_event: no path is consistent with the table row open={o} provisional={p} remote_max={r} queued={len(q)}")
+                if ok:  # else: this path is not taken with these values
+                    for g in GROUPS:
+                        if g[0] == H and new in (g[1], None):
+                            cons[g].append((queued, resumed, free))
+            ctx.require(all(cons.values()), f"Http2Client._handle_event: no path is consistent with the table row open={o} provisional={p} remote_max={r} queued={len(q)}")
+            # the path actually taken is one of the consistent ones (the open conditions pick it).  All of them wrong: the decision is wrong
+            # whatever the open conditions are.  Some wrong: the decision depends on an open condition.
+            for g in GROUPS:
+                want_q = g[1] and o >= limit
+                want_r = bool(q) and o < limit
+                for what, group, wrong in (
+                    ("gate", cons[g], [c for c in cons[g] if c[0] != want_q]),
+                    ("resume", [c for c in cons[g] if not c[0]], [c for c in cons[g] if not c[0] and c[1] != want_r]),
+                ):
+                    if not wrong:
+                        continue
+                    if len(wrong) == len(group) or any(not c[2] for c in wrong):  # (a wrong path without open conditions is taken for some event / command)
+                        first = next((c for c in wrong if not c[2]), wrong[0])
+                        if what == "gate" and bad_g is None:
+                            bad_g = (row, first[0])
+                        if what == "resume" and bad_r is None:
+                            bad_r = (row, first[1])
+                        continue
+                    right = [c for c in group if c not in wrong]
+                    frees = [g for c in wrong for g in c[2]]
+                    telling = [g for g in frees if any(g2[0] == g[0] and g2[1] != g[1] for c in right for g2 in c[2])]  # open conditions on which right and wrong paths differ
+                    frees = telling or frees
+                    attrs = [g[2][1] for g in frees if g[2][1] is not None and "self." + g[2][1] not in extras]
+                    for a in attrs:
+                        need.setdefault(a, what)
+                    if not attrs and stuck is None and frees:
+                        stuck = (what, frees[0][0].split(":", 2)[2], frees[0][2][2])
         if need:
             # quantities the deciding conditions read besides the modelled four: mitmproxy's own bookkeeping.  Such an attribute is only an
             # acceptable measure of "streams open upstream" if it is kept equal to hyper-h2's count; when the class provably does not do that
@@ -942,53 +1138,97 @@ def _gate_tables(ctx):
 def _routing(ctx):
     fn = ctx.func(I, "HttpLayer.event_to_child")
     child_p, event_p = params_of(fn)
-    loops = loops_over(fn, lambda it: isinstance(it, ast.Call) and attr_chain(it.func) == f"{child_p}.handle_event")
+    single = _single(fn)
+
+    def from_child(it):
+        it = _through(single, it)
+        return isinstance(it, ast.Call) and attr_chain(it.func) == f"{child_p}.handle_event"
+
+    loops = loops_over(fn, from_child)
     ctx.require(len(loops) == 1 and isinstance(loops[0].target, ast.Name), "HttpLayer.event_to_child: command loop not found")
     loop = loops[0]
     cmd = loop.target.id
     w = (I, "HttpLayer.event_to_child", loop)
+    STREAMS, CONNS = "self.streams", "self.connections"
+
+    def key(e, st, sp):
+        return sp.canon(e, st) or norm(e)
 
     def val(expr, st, sp):
-        if isinstance(expr, ast.Subscript):
-            if attr_chain(expr.value) == "self.streams":
-                return ("stream", attr_chain(expr.slice) or norm(expr.slice))
-            if attr_chain(expr.value) == "self.connections":
-                return ("conn", attr_chain(expr.slice) or norm(expr.slice))
+        if isinstance(expr, ast.Subscript) and isinstance(expr.ctx, ast.Load):
+            ch = sp.canon(expr.value, st)
+            if ch == STREAMS:
+                return ("stream", key(expr.slice, st, sp))
+            if ch == CONNS:
+                return ("conn", key(expr.slice, st, sp))
+        if isinstance(expr, ast.Call):
+            ch, m = sp.recv(expr, st)
+            if ch == STREAMS and m == "get" and not expr.keywords and (len(expr.args) == 1 or (len(expr.args) == 2 and _is_none(expr.args[1]))):
+                return ("stream?", key(expr.args[0], st, sp))  # None when the stream is gone (HttpStream objects themselves are never None)
         return None
+
+    def dest(v):
+        return ("stream", v[1]) if isinstance(v, tuple) and len(v) == 2 and v[0] == "stream?" else v
 
     def label(node, st, sp):
         out = []
         for n in eval_order(node):
             if isinstance(n, ast.Call):
+                ch, m = sp.recv(n, st)
                 if is_self_call(n, "make_stream"):
-                    out.append(("make_stream", attr_chain(n.args[0]) if len(n.args) == 1 else "?"))
+                    out.append(("make_stream", key(n.args[0], st, sp) if len(n.args) == 1 else "?"))
                 elif is_self_call(n, "event_to_child") and len(n.args) == 2:
-                    out.append(("route", sp.v(n.args[0], st), attr_chain(n.args[1]) or norm(n.args[1])))
-                elif method_call_on(n, "self.streams") in ("pop", "clear", "popitem"):
-                    out.append(("drop", attr_chain(n.args[0]) if n.args else "?"))
-        if isinstance(node, ast.Assign):
-            for t in node.targets:
-                if isinstance(t, ast.Subscript) and attr_chain(t.value) == "self.streams":
+                    out.append(("route", dest(sp.v(n.args[0], st)), key(n.args[1], st, sp)))
+                elif ch == STREAMS and m in ("pop", "clear", "popitem"):
+                    out.append(("drop", key(n.args[0], st, sp) if n.args else "?"))
+                elif ch == STREAMS and m in ("update", "setdefault", "__setitem__"):
+                    out.append(("make_stream", "inline:" + norm(n)))
+                elif ch == STREAMS and m == "__delitem__":
+                    out.append(("drop", "?"))
+        if isinstance(node, (ast.Assign, ast.AnnAssign, ast.AugAssign)):
+            for t, _ in _stores(node):
+                if (isinstance(t, ast.Subscript) and sp.canon(t.value, st) == STREAMS) or sp.canon(t, st) == STREAMS:
                     out.append(("make_stream", "inline:" + norm(node)))
         elif isinstance(node, ast.Delete):
             for t in node.targets:
-                if isinstance(t, ast.Subscript) and attr_chain(t.value) == "self.streams":
-                    out.append(("drop", attr_chain(t.slice)))
+                if isinstance(t, ast.Subscript) and sp.canon(t.value, st) == STREAMS:
+                    out.append(("drop", key(t.slice, st, sp)))
         return out
 
     KIND = {"ReceiveHttp": "RECV", "SendHttp": "SEND", "DropStream": "DROP", "GetHttpConnection": "GET", "RegisterHttpConnection": "REG", "OpenConnection": "OPENC", "Command": "ANY"}
 
     def atom(expr, st, sp):
-        io = isinstance_of(expr)
-        if io and isinstance(io[0], ast.Name) and io[0].id == cmd and len(io[1]) == 1 and io[1][0] in KIND:
-            return (KIND[io[1][0]], True)
-        if io and attr_chain(io[0]) == f"{cmd}.event" and io[1] == ["RequestHeaders"]:
-            return ("RQH", True)
+        io = _isinst(expr)
+        if io:
+            c = sp.canon(io[0], st)
+            if c == cmd and len(io[1]) == 1 and io[1][0] in KIND:
+                return (KIND[io[1][0]], True)
+            if c == f"{cmd}.event" and io[1] == ["RequestHeaders"]:
+                return ("RQH", True)
+        # "is the stream still there?": `.get()` result tested against None / for truth, or a membership test - the same decision as `except KeyError`
+        cp = compare_pair(expr, (ast.Is, ast.IsNot, ast.Eq, ast.NotEq))
+        if cp and _is_none(cp[1]):
+            v = sp.v(cp[0], st)
+            if isinstance(v, tuple) and v and v[0] == "stream?":
+                return ("HAVE", isinstance(cp[2], (ast.IsNot, ast.NotEq)))
+        if isinstance(expr, (ast.Name, ast.NamedExpr)):
+            v = sp.v(expr, st)
+            if isinstance(v, tuple) and v and v[0] == "stream?":
+                return ("HAVE", True)
+        cp = compare_pair(expr, (ast.In, ast.NotIn))
+        if cp and sp.canon(cp[1], st) == STREAMS:
+            return ("HAVE", isinstance(cp[2], ast.In))
         return None
 
     def raises(stmt, st, sp):
-        return ["KeyError"] if any(isinstance(n, ast.Subscript) and attr_chain(n.value) == "self.streams" and isinstance(n.ctx, ast.Load) for n in ast.walk(stmt)) else []
+        if isinstance(stmt, (ast.Assign, ast.AnnAssign, ast.Expr, ast.Return)):
+            return ["KeyError"] if any(isinstance(n, ast.Subscript) and isinstance(n.ctx, ast.Load) and sp.canon(n.value, st) == STREAMS for n in ast.walk(stmt)) else []
+        return []
 
+    # private helpers of HttpLayer that touch self.streams are part of the routing decision: they are inlined
+    resolver = _self_helper_resolver(ctx, I, "HttpLayer", skip_names=("make_stream", "event_to_child", "_handle_event"),
+                                     only=lambda f: any(isinstance(n, ast.Attribute) and attr_chain(n) == STREAMS for n in ast.walk(f)))
+    inlined = {}
     rows = {
         "RECV": lambda rqh: ([("make_stream", f"{cmd}.event.stream_id")] if rqh else []) + [("route", ("stream", f"{cmd}.event.stream_id"), f"{cmd}.event")],
         "SEND": lambda rqh: [("route", ("conn", f"{cmd}.connection"), f"{cmd}.event")],
@@ -997,8 +1237,9 @@ def _routing(ctx):
     for kind in ("RECV", "SEND", "DROP", "GET", "REG", "OPENC"):
         sc = {k: (k == kind) for k in ("RECV", "SEND", "DROP", "GET", "REG", "OPENC")}
         sc["ANY"] = True
-        sc["Btruthy"] = False
-        traces, _ = run_block(loop.body, ASpec(label=label, atom=atom, scenario=sc, val=val, raises=raises, unroll=1), {cmd: ("cmd",), child_p: ("param", child_p)})
+        sp = DSpec(label=label, atom=atom, scenario=sc, val=val, raises=raises, resolver=resolver, unroll=1)
+        traces, _ = run_block(loop.body, sp, {cmd: ("sym", cmd), child_p: ("param", child_p)})
+        inlined.update(sp.inlined_fns)
         ctx.paths += len(traces)
         ctx.cells += 1
         ctx.require(traces, "HttpLayer.event_to_child: no path")
@@ -1009,30 +1250,43 @@ def _routing(ctx):
                 continue
             eff = [t for t in proj(tr, ("make_stream", "route", "drop"))]
             rqh = ("cond", "RQH", True) in tr
-            caught = any(t[0] == "caught" for t in tr)
+            made = max((i for i, t in enumerate(tr) if t[0] == "make_stream"), default=-1)  # (what was known about the table before the stream was made is outdated)
+            gone = any(t[0] == "caught" or t == ("cond", "HAVE", False) for t in tr[made + 1 :])
             want = rows[kind](rqh) if kind in rows else []
-            if caught and kind == "RECV":
+            if gone and kind == "RECV":
                 want = want[:-1]  # the stream is already gone: the event is dropped (upstream issue 5343), nothing is routed
             if eff != want:
                 bad = (eff, f"expected {show(want) or 'no stream/routing effect'}")
         ctx.check(bad is None, "R05.3", w, f"routing of {kind}", f"{bad[1]}, saw {show(bad[0])}" if bad else "", desc=f"event_to_child {kind}: {show(rows[kind](True)) if kind in rows else 'no stream effect'}")
 
-    # who-may-write self.streams in HttpLayer
+    # who-may-write self.streams in HttpLayer: make_stream (create), event_to_child (DropStream) and helpers only they call
     writers = {}
     for st in ctx.model.cls(I, "HttpLayer").body:
         if isinstance(st, ast.FunctionDef):
             for n in ast.walk(st):
-                if isinstance(n, (ast.Assign, ast.Delete)) and any(isinstance(t, ast.Subscript) and attr_chain(t.value) == "self.streams" for t in n.targets):
+                if isinstance(n, (ast.Assign, ast.AnnAssign, ast.AugAssign, ast.Delete, ast.For, ast.With)) and any(
+                    isinstance(t, ast.Subscript) and attr_chain(t.value) == "self.streams" for t in (n.targets if isinstance(n, ast.Delete) else [t for t, _ in _stores(n)])
+                ):
                     writers.setdefault(st.name, []).append(n)
-                elif isinstance(n, ast.Call) and method_call_on(n, "self.streams") in ("pop", "clear", "popitem", "update", "setdefault"):
+                elif isinstance(n, ast.Call) and method_call_on(n, "self.streams") in ("pop", "clear", "popitem", "update", "setdefault", "__setitem__", "__delitem__"):
                     writers.setdefault(st.name, []).append(n)
-    ctx.check(set(writers) == {"make_stream", "event_to_child"}, "R05.3", (I, "HttpLayer", ctx.model.cls(I, "HttpLayer")), "writers of self.streams",
+    allowed = _private_to(ctx, {(I, "HttpLayer.make_stream"), (I, "HttpLayer.event_to_child")}, list(inlined.values()), (I,), _family(ctx, I, "HttpLayer", (I,)))
+    allowed_names = {q.split(".", 1)[1] for _, q in allowed if q.startswith("HttpLayer.")}
+    ctx.check(set(writers) <= allowed_names, "R05.3", (I, "HttpLayer", ctx.model.cls(I, "HttpLayer")), "writers of self.streams",
               f"self.streams is modified in {sorted(writers)}; only make_stream (create) and event_to_child (DropStream) may", desc="self.streams written only by make_stream / event_to_child")
     ms = ctx.func(I, "HttpLayer.make_stream")
     sid = params_of(ms)[0]
+    ms_single = _single(ms)
     asg = [n for n in ast.walk(ms) if isinstance(n, ast.Assign) and isinstance(n.targets[0], ast.Subscript) and attr_chain(n.targets[0].value) == "self.streams"]
-    ok = len(asg) == 1 and attr_chain(asg[0].targets[0].slice) == sid and isinstance(asg[0].value, ast.Call) and last_attr(asg[0].value.func) == "HttpStream" \
-        and len(asg[0].value.args) == 2 and attr_chain(asg[0].value.args[1]) == sid
+    made = _through(ms_single, asg[0].value) if len(asg) == 1 else None
+
+    def is_sid(e):
+        return attr_chain(_through(ms_single, e)) == sid and len(_bindings(ms).get(sid, [])) == 1
+
+    own = None
+    if isinstance(made, ast.Call) and last_attr(made.func) == "HttpStream":
+        own = made.args[1] if len(made.args) == 2 and not made.keywords else next((k.value for k in made.keywords if k.arg == "stream_id"), None)
+    ok = made is not None and is_sid(asg[0].targets[0].slice) and own is not None and is_sid(own)
     ctx.check(ok, "R05.3", (I, "HttpLayer.make_stream", ms), "streams[stream_id] = HttpStream(ctx, stream_id)", "the stream is registered under an id different from its own", desc="make_stream registers HttpStream(ctx, id) under the same id")
 
 
@@ -1045,6 +1299,22 @@ RECV_CLASSES = ("ReceiveData", "ReceiveTrailers", "ReceiveEndOfMessage", "Receiv
 
 def _own_ids(ctx):
     sites = 0
+    temps: dict = {}
+
+    def own(fnnode, evvar, e, attr):
+        """``e`` denotes <the protocol event being handled>.<attr>: written out, or a local that was assigned exactly that once
+        (the attribute itself is never assigned in the handler)."""
+        if id(fnnode) not in temps:
+            temps[id(fnnode)] = _single(fnnode)
+        k = (id(fnnode), evvar, attr)
+        if k not in temps:
+            temps[k] = any(isinstance(n, ast.Attribute) and isinstance(n.ctx, (ast.Store, ast.Del)) and attr_chain(n) == f"{evvar}.{attr}" for n in ast.walk(fnnode))
+        if temps[k]:
+            return False
+        return attr_chain(_through(temps[id(fnnode)], e)) == f"{evvar}.{attr}"
+
+    def own_id(fnnode, evvar, e):
+        return own(fnnode, evvar, e, "stream_id")
 
     def scan(rel, qual, body_nodes, evvar, fnnode):
         nonlocal sites
@@ -1062,7 +1332,7 @@ def _own_ids(ctx):
                         continue
                     sites += 1
                     a0 = n.args[0] if n.args else next((k.value for k in n.keywords if k.arg == "stream_id"), None)
-                    ctx.check(a0 is not None and attr_chain(a0) == f"{evvar}.stream_id", "R05.4", (rel, qual, n), f"{last_attr(n.func)} stream id in {qual}",
+                    ctx.check(a0 is not None and own_id(fnnode, evvar, a0), "R05.4", (rel, qual, n), f"{last_attr(n.func)} stream id in {qual}",
                               f"the event handed to the HTTP layer carries stream id `{norm(a0) if a0 is not None else '?'}` instead of the id of the protocol event being handled ({evvar}.stream_id) "
                               "- data would be attributed to another stream", desc=f"{qual}: {last_attr(n.func)}({evvar}.stream_id, ...)")
 
@@ -1084,7 +1354,7 @@ def _own_ids(ctx):
         evv = params_of(fn)[0]
         for n in ast.walk(fn):
             if isinstance(n, ast.Assign) and isinstance(n.targets[0], ast.Subscript) and attr_chain(n.targets[0].value) == "self.streams":
-                ctx.check(attr_chain(n.targets[0].slice) == f"{evv}.stream_id", "R05.4", (H2, f"{cls}.handle_h2_event", n), "self.streams key", "stream state recorded under a foreign id",
+                ctx.check(own_id(fn, evv, n.targets[0].slice), "R05.4", (H2, f"{cls}.handle_h2_event", n), "self.streams key", "stream state recorded under a foreign id",
                           desc=f"{cls}.handle_h2_event: self.streams[{evv}.stream_id] := ...")
 
     # flow-control acknowledgement
@@ -1096,7 +1366,10 @@ def _own_ids(ctx):
         for n in eval_order(node):
             if isinstance(n, ast.Call):
                 if attr_chain(n.func) == "self.h2_conn.acknowledge_received_data":
-                    out.append(("ack", tuple(attr_chain(a) for a in n.args)))
+                    args = dict(zip(("acknowledged_size", "stream_id"), n.args))
+                    args.update({k.arg: k.value for k in n.keywords if k.arg})
+                    out.append(("ack", tuple((f"{evv}.{a}" if p in args and own(fn, evv, args[p], a) else norm(args[p]) if p in args else "?")
+                                             for p, a in (("acknowledged_size", "flow_controlled_length"), ("stream_id", "stream_id"))) + (("extra",) if len(args) != 2 else ())))
                 elif is_self_call(n, "protocol_error") or is_self_call(n, "close_connection"):
                     out.append(("abort",))
         return out
@@ -1230,6 +1503,9 @@ MUTANTS = [
     Mutant("gate-counts-own-stream-table", H2, "no_free_streams = self.h2_conn.open_outbound_streams >= (", "no_free_streams = len(self.streams) >= (", "R05.2"),
     Mutant("resume-counts-id-map", H2, "can_resume_queue = self.stream_queue and self.h2_conn.open_outbound_streams < (", "can_resume_queue = self.stream_queue and len(self.our_stream_id) < (", "R05.2"),
     Mutant("gate-counts-mapped-minus-queued", H2, "no_free_streams = self.h2_conn.open_outbound_streams >= (", "no_free_streams = bool(self.their_stream_id) and len(self.their_stream_id) >= (", "R05.2"),
+    Mutant("gate-only-without-debug", H2, "                if no_free_streams:\n", "                if no_free_streams and not self.debug:\n", "R05.2"),
+    Mutant("resume-only-on-http-events", H2, "        if can_resume_queue:\n", "        if can_resume_queue and isinstance(event, HttpEvent):\n", "R05.2"),
+    Mutant("gate-also-for-mapped-streams", H2, "            if ours is None:\n                no_free_streams", "            if True:\n                no_free_streams", "R05.2"),
     Mutant("resume-lifo", H2, "events = self.stream_queue.pop(next(iter(self.stream_queue)))", "events = self.stream_queue.popitem()[1]", "R05.2"),
     Mutant("resume-without-capacity", H2, "can_resume_queue = self.stream_queue and self.h2_conn.open_outbound_streams < (", "can_resume_queue = self.stream_queue and self.h2_conn.open_outbound_streams <= (", "R05.2"),
     Mutant("gated-event-also-sent", H2, "                    self.stream_queue[event.stream_id].append(event)\n                    return\n", "                    self.stream_queue[event.stream_id].append(event)\n", "R05.2"),
